@@ -192,6 +192,13 @@ func ScanSnapshot(in io.Reader, prefix io.Writer, opts *Opts) (*Snapshot, []byte
 			}
 		}
 	}
+	if s.state == done && suffix == nil {
+		// The scan ended on a line that was itself consumed (the race detector
+		// footer). Hand back what was already read ahead.
+		if b := r.buffered(); len(b) != 0 {
+			suffix = append([]byte{}, b...)
+		}
+	}
 	if s.Goroutines != nil {
 		if opts.NameArguments {
 			nameArguments(s.Goroutines)
